@@ -4,7 +4,7 @@ package main
 
 import (
 	"fmt"
-	"go/token"
+	"sort"
 	"strings"
 
 	"golang.org/x/tools/go/ssa"
@@ -33,115 +33,12 @@ func checkC17(c *Ctx, r *Result, tier string) {
 	impls := c.Implementations(locIface, "Resolve")
 	r.Floor("R17-resolve-impls", len(impls), 2)
 
-	// the containment predicate: module function (string,string) -> (bool,error) calling filepath.Rel
-	var pred *ssa.Function
-	for _, fn := range c.ModFuncs() {
-		if fn.Parent() != nil || fn.Signature.Results().Len() != 2 || fn.Signature.Params().Len() != 2 {
-			continue
-		}
-		if fn.Signature.Results().At(0).Type().String() != "bool" || fn.Signature.Results().At(1).Type().String() != "error" {
-			continue
-		}
-		if len(callSites(fn, func(name string, _ ssa.CallInstruction) bool { return name == "path/filepath.Rel" })) > 0 {
-			pred = fn
-		}
-	}
-	if pred == nil {
-		// diagnose the candidates: functions of package util taking two strings and returning a bool first
-		for _, fn := range c.ModFuncs() {
-			if c.PkgOf(fn) != "util" || fn.Parent() != nil || fn.Signature.Params().Len() != 2 || fn.Signature.Results().Len() == 0 ||
-				fn.Signature.Results().At(0).Type().String() != "bool" || fn.Signature.Params().At(0).Type().String() != "string" || fn.Signature.Params().At(1).Type().String() != "string" {
-				continue
-			}
-			key := c.FuncKey(fn)
-			pos := c.Pos(fn.Pos())
-			rels := callSites(fn, func(name string, _ ssa.CallInstruction) bool { return name == "path/filepath.Rel" })
-			prefix := callSites(fn, func(name string, _ ssa.CallInstruction) bool { return name == "strings.HasPrefix" })
-			switch {
-			case len(rels) > 0 && fn.Signature.Results().Len() == 1:
-				r.Instance("R17b", key+"#rel-error", pos, "finding", "error of filepath.Rel dropped", true)
-				r.Report(Finding{Rule: "R17b", Site: key + "#rel-error", Pos: pos,
-					Msg: key + ": the containment test calls filepath.Rel but cannot report its error (it returns only a bool): when Rel fails it returns \"\", which does not start with `..`, so the path counts as inside the root — an empty root with a rooted import path reads any absolute file"})
-			case len(rels) == 0 && len(prefix) > 0:
-				r.Instance("R17b", key+"#string-prefix", pos, "finding", "containment by string prefix", true)
-				r.Report(Finding{Rule: "R17b", Site: key + "#string-prefix", Pos: pos,
-					Msg: key + ": containment is decided by strings.HasPrefix on path strings instead of on the relative path's first component: the separator boundary is lost — root `code` contains `code.bak/secret` and `code2/x`, reachable with `..` segments"})
-			}
-		}
-		// the test may be written out in the Resolve implementation itself
-		inline := false
-		for _, impl := range impls {
-			if len(callSites(impl, func(name string, _ ssa.CallInstruction) bool { return name == "path/filepath.Rel" })) > 0 {
-				inline = true
-				r.Instance("R17-anchor", c.FuncKey(impl), c.Pos(impl.Pos()), "found", "containment test written out in the Resolve implementation (filepath.Rel and its conjuncts)", false)
-			}
-		}
-		if !inline {
-			r.Undecide("no containment predicate (func(string,string)(bool,error) using filepath.Rel) and no filepath.Rel in a Resolve implementation found")
-			return
-		}
-	} else {
-		r.Instance("R17-anchor", c.FuncKey(pred), c.Pos(pred.Pos()), "found", "containment predicate", false)
-	}
-
-	// confining helpers: functions returning (string, error) whose string, whenever the error is nil,
-	// is the very value the predicate accepted on that path
-	confiners := map[*ssa.Function]bool{}
-	for _, h := range c.ModFuncs() {
-		if h.Parent() != nil || h.Signature.Results().Len() != 2 || h.Signature.Results().At(0).Type().String() != "string" || h.Signature.Results().At(1).Type().String() != "error" {
-			continue
-		}
-		if pred == nil || len(callSites(h, func(_ string, ci ssa.CallInstruction) bool { return ci.Common().StaticCallee() == pred })) == 0 {
-			continue
-		}
-		good, seenOK := true, false
-		ho := &PathOracle{}
-		ho.AtReturn = func(st *PState, ret *ssa.Return) {
-			if len(ret.Results) != 2 || st.Get(ret.Results[1], ho) == AvNonNil {
-				return // error path
-			}
-			if st.Get(ret.Results[1], ho) != AvNil {
-				good = false
-				return
-			}
-			val := st.canon(ret.Results[0])
-			accepted := false
-			allInstrs(h, func(x ssa.Instruction) {
-				pc, ok := x.(*ssa.Call)
-				if !ok || pc.Call.StaticCallee() != pred || st.canon(pc.Call.Args[1]) != val {
-					return
-				}
-				var okV, errV ssa.Value
-				for _, ref := range *pc.Referrers() {
-					if e, isE := ref.(*ssa.Extract); isE {
-						if e.Index == 0 {
-							okV = e
-						} else {
-							errV = e
-						}
-					}
-				}
-				if okV != nil && errV != nil && st.Get(okV, ho) == AvNonNil && st.Get(errV, ho) == AvNil {
-					accepted = true
-				}
-			})
-			if accepted {
-				seenOK = true
-			} else {
-				good = false
-			}
-		}
-		if ExplorePaths(h, ho) && good && seenOK {
-			confiners[h] = true
-			r.Instance("R17a", c.FuncKey(h)+"#confines", c.Pos(h.Pos()), "ok", "whenever it returns a nil error, the returned path is the value the containment predicate accepted on that path", true)
-		}
-	}
-
-	// ---- R17a -----------------------------------------------------------------------------------
+	// ---- R17a / R17c: containment engine ----------------------------------------------------------
+	ce := newContainment(c)
 	nFile := 0
-	nInline := map[*ssa.Call]bool{}
+	anyBad := false
 	for _, impl := range impls {
-		reach := c.Reachable([]*ssa.Function{impl}, func(f *ssa.Function) bool { return pred != nil && f == pred })
+		reach := c.Reachable([]*ssa.Function{impl}, func(f *ssa.Function) bool { return ce.summary(f) != nil })
 		for _, fn := range reach.Order {
 			key := c.FuncKey(fn)
 			sites := callSites(fn, func(name string, _ ssa.CallInstruction) bool { _, ok := fileAPIs[name]; return ok })
@@ -150,11 +47,7 @@ func checkC17(c *Ctx, r *Result, tier string) {
 				continue
 			}
 			bad := map[ssa.Instruction]string{}
-			okSites := map[ssa.Instruction]bool{}
-			type chk struct {
-				call *ssa.Call
-				sub  ssa.Value
-			}
+			okSites := map[ssa.Instruction]string{}
 			o := &PathOracle{}
 			o.Visit = func(st *PState, in ssa.Instruction) {
 				ci, isCall := in.(ssa.CallInstruction)
@@ -165,123 +58,9 @@ func checkC17(c *Ctx, r *Result, tier string) {
 				if !isFile {
 					return
 				}
-				path := st.canon(ci.Common().Args[idx])
-				// find a predicate call on this function whose sub argument is this value and whose results are (true, nil)
-				found := false
-				why := "the path was never handed to the containment predicate"
-				// the result of a confining helper, on a path where its error is nil
-				if e, isE := path.(*ssa.Extract); isE && e.Index == 0 {
-					if hc, isCall := e.Tuple.(*ssa.Call); isCall && hc.Call.StaticCallee() != nil && confiners[hc.Call.StaticCallee()] {
-						for _, ref := range *hc.Referrers() {
-							if e1, ok := ref.(*ssa.Extract); ok && e1.Index == 1 {
-								if st.Get(e1, o) == AvNil {
-									found = true
-								} else {
-									why = "reached on a path where the error of " + hc.Call.StaticCallee().Name() + "() is not known to be nil"
-								}
-							}
-						}
-					}
-				}
-				// the test written out: rel, err := filepath.Rel(root, p) with err == nil,
-				// ¬HasPrefix(rel, ".."+separator) and rel ≠ ".." known on this path
-				allInstrs(fn, func(x ssa.Instruction) {
-					rc, ok := x.(*ssa.Call)
-					if !ok || callName(rc) != "path/filepath.Rel" || len(rc.Call.Args) != 2 || !dominates(rc, in) || found {
-						return
-					}
-					nInline[rc] = true
-					if st.canon(rc.Call.Args[1]) != path {
-						why = fmt.Sprintf("the value checked (%s) is not the value opened (%s)", accessPath(rc.Call.Args[1]), accessPath(ci.Common().Args[idx]))
-						return
-					}
-					if rootOf(rc.Call.Args[0]) == rootOf(rc.Call.Args[1]) || st.canon(rc.Call.Args[0]) == path {
-						why = "filepath.Rel is not applied to (root, path)"
-						return
-					}
-					var relV, errV ssa.Value
-					for _, ref := range *rc.Referrers() {
-						if e, isE := ref.(*ssa.Extract); isE {
-							if e.Index == 0 {
-								relV = e
-							} else {
-								errV = e
-							}
-						}
-					}
-					if relV == nil || errV == nil {
-						why = "a result of filepath.Rel is ignored"
-						return
-					}
-					if st.Get(errV, o) != AvNil {
-						why = "reached on a path where the error of filepath.Rel is not known to be nil (Rel returns \"\" when it fails, which passes the prefix test)"
-						return
-					}
-					prefOK, dotsOK := false, false
-					allInstrs(fn, func(y ssa.Instruction) {
-						switch z := y.(type) {
-						case *ssa.Call:
-							if callName(z) == "strings.HasPrefix" && len(z.Call.Args) == 2 && st.canon(z.Call.Args[0]) == st.canon(relV) && prefixIsDotDotSep(z.Call.Args[1]) && st.Get(z, o) == AvNil {
-								prefOK = true
-							}
-						case *ssa.BinOp:
-							if (z.Op == token.NEQ || z.Op == token.EQL) && st.canon(z.X) == st.canon(relV) {
-								if cs, isC := constString(z.Y); isC && cs == ".." {
-									want := AvNonNil
-									if z.Op == token.EQL {
-										want = AvNil
-									}
-									if st.Get(z, o) == want {
-										dotsOK = true
-									}
-								}
-							}
-						}
-					})
-					switch {
-					case !prefOK:
-						why = "reached on a path where the relative path is not known not to start with \"..\"+separator"
-					case !dotsOK:
-						why = "reached on a path where the relative path is not known to differ from \"..\""
-					default:
-						found = true
-					}
-				})
-				allInstrs(fn, func(x ssa.Instruction) {
-					pc, ok := x.(*ssa.Call)
-					if !ok || pred == nil || pc.Call.StaticCallee() != pred || !dominates(pc, in) {
-						return
-					}
-					if st.canon(pc.Call.Args[1]) != path {
-						why = fmt.Sprintf("the value checked (%s) is not the value opened (%s)", accessPath(pc.Call.Args[1]), accessPath(ci.Common().Args[idx]))
-						return
-					}
-					var okV, errV ssa.Value
-					for _, ref := range *pc.Referrers() {
-						if e, isE := ref.(*ssa.Extract); isE {
-							if e.Index == 0 {
-								okV = e
-							} else {
-								errV = e
-							}
-						}
-					}
-					if okV == nil || errV == nil {
-						why = "a result of the containment predicate is ignored"
-						return
-					}
-					if st.Get(okV, o) != AvNonNil {
-						why = "reached on a path where the predicate's boolean is not known to be true"
-						return
-					}
-					if st.Get(errV, o) != AvNil {
-						why = "reached on a path where the predicate's error is not known to be nil"
-						return
-					}
-					found = true
-				})
-				if found {
-					okSites[in] = true
+				okc, why := ce.contained(fn, st, o, in, ci.Common().Args[idx], 0)
+				if okc {
+					okSites[in] = why
 				} else if _, dup := bad[in]; !dup {
 					bad[in] = why
 				}
@@ -294,11 +73,12 @@ func checkC17(c *Ctx, r *Result, tier string) {
 				site := fmt.Sprintf("%s#file-call#%d:%s", key, i, callName(s))
 				pos := c.Pos(c.InstrPos(s))
 				if why, isBad := bad[s]; isBad {
+					anyBad = true
 					r.Instance("R17a", site, pos, "finding", why, true)
 					r.Report(Finding{Rule: "R17a", Site: site, Pos: pos, Path: reach.PathTo(c, fn),
 						Msg: fmt.Sprintf("%s calls %s on the import path: %s — a path outside the root could be opened", key, callName(s), why)})
-				} else if okSites[s] {
-					r.Instance("R17a", site, pos, "ok", "same SSA value as checked; on every path here ok=true ∧ err=nil", true)
+				} else if why, isOK := okSites[s]; isOK {
+					r.Instance("R17a", site, pos, "ok", why, true)
 				} else {
 					r.Instance("R17a", site, pos, "unreachable", "no explored path reaches this call", false)
 				}
@@ -306,6 +86,39 @@ func checkC17(c *Ctx, r *Result, tier string) {
 		}
 	}
 	r.Floor("R17a-file-calls", nFile, 1)
+	// what establishes containment: the functions with a summary that were used, and tests written out
+	nTests := 0
+	var used []*ssa.Function
+	for f, sm := range ce.memo {
+		if sm != nil && ce.usedSummary[f] {
+			used = append(used, f)
+		}
+	}
+	sort.Slice(used, func(i, j int) bool { return c.FuncKey(used[i]) < c.FuncKey(used[j]) })
+	for _, f := range used {
+		nTests++
+		sm := ce.memo[f]
+		r.Instance("R17c", c.FuncKey(f)+"#result", c.Pos(f.Pos()), "ok", fmt.Sprintf("%s: on all %d return paths that can signal success (%s) the argument %s is established to lie inside the root: filepath.Rel(root, p) succeeded and its first element is not `..`", sm.kind, sm.successPaths, sm.signal, f.Params[sm.param].Name()), true)
+	}
+	var inl []*ssa.Call
+	for rc := range ce.usedInline {
+		inl = append(inl, rc)
+	}
+	sort.Slice(inl, func(i, j int) bool { return c.Pos(c.InstrPos(inl[i])) < c.Pos(c.InstrPos(inl[j])) })
+	for _, rc := range inl {
+		if ce.memo[rc.Parent()] != nil && ce.usedSummary[rc.Parent()] {
+			continue
+		}
+		nTests++
+		r.Instance("R17c", c.FuncKey(rc.Parent())+"#inline", c.Pos(c.InstrPos(rc)), "ok", "the test is written out next to the file call: required path by path there (R17a)", true)
+	}
+	if anyBad || nTests == 0 {
+		c17Diagnose(c, r)
+	}
+	if nTests == 0 && !anyBad {
+		r.Undecide("no containment test (filepath.Rel of the opened path against the root, with its first element compared with `..`) found on the way to a file call")
+	}
+	r.Extra["containment_tests"] = nTests
 
 	// ---- R17b -----------------------------------------------------------------------------------
 	n := 0
@@ -337,99 +150,6 @@ func checkC17(c *Ctx, r *Result, tier string) {
 	}
 	r.Floor("R17b", n, 1)
 
-	// ---- R17c -----------------------------------------------------------------------------------
-	if pred != nil {
-		c17Predicate(c, r, pred)
-	} else {
-		// written out: the conjuncts are part of R17a at every file call
-		r.Floor("R17c-inline-tests", len(nInline), 1)
-		for rc := range nInline {
-			r.Instance("R17c", c.FuncKey(rc.Parent())+"#inline", c.Pos(c.InstrPos(rc)), "ok", "the three conjuncts (err = nil, ¬HasPrefix(rel, \"..\"+sep), rel ≠ \"..\") are required path by path at every file call (R17a)", true)
-		}
-	}
-}
-
-func c17Predicate(c *Ctx, r *Result, pred *ssa.Function) {
-	key := c.FuncKey(pred)
-	rels := callSites(pred, func(name string, _ ssa.CallInstruction) bool { return name == "path/filepath.Rel" })
-	if len(rels) != 1 {
-		r.Report(Finding{Rule: "R17c", Site: key + "#rel", Pos: c.Pos(pred.Pos()), Msg: key + ": expected exactly one filepath.Rel call"})
-		return
-	}
-	rel := rels[0].(*ssa.Call)
-	if len(pred.Params) != 2 || rel.Call.Args[0] != ssa.Value(pred.Params[0]) || rel.Call.Args[1] != ssa.Value(pred.Params[1]) {
-		r.Instance("R17c", key+"#rel-args", c.Pos(c.InstrPos(rel)), "finding", "Rel arguments are not (root, sub) in order", true)
-		r.Report(Finding{Rule: "R17c", Site: key + "#rel-args", Pos: c.Pos(c.InstrPos(rel)),
-			Msg: key + ": filepath.Rel is not applied to the predicate's own parameters (root, sub) in this order"})
-		return
-	}
-	var relV, errV ssa.Value
-	for _, ref := range *rel.Referrers() {
-		if e, ok := ref.(*ssa.Extract); ok {
-			if e.Index == 0 {
-				relV = e
-			} else {
-				errV = e
-			}
-		}
-	}
-	// the conjunct conditions
-	var hasPrefix *ssa.Call
-	var neqDots *ssa.BinOp
-	allInstrs(pred, func(in ssa.Instruction) {
-		switch x := in.(type) {
-		case *ssa.Call:
-			if callName(x) == "strings.HasPrefix" && len(x.Call.Args) == 2 && x.Call.Args[0] == relV {
-				if prefixIsDotDotSep(x.Call.Args[1]) {
-					hasPrefix = x
-				}
-			}
-		case *ssa.BinOp:
-			if (x.Op == token.NEQ || x.Op == token.EQL) && x.X == relV {
-				if s, ok := constString(x.Y); ok && s == ".." {
-					neqDots = x
-				}
-			}
-		}
-	})
-	if hasPrefix == nil || neqDots == nil || relV == nil || errV == nil {
-		r.Instance("R17c", key+"#conjuncts", c.Pos(pred.Pos()), "finding", "conjunct missing", true)
-		r.Report(Finding{Rule: "R17c", Site: key + "#conjuncts", Pos: c.Pos(pred.Pos()),
-			Msg: fmt.Sprintf("%s: the containment test lacks a conjunct (HasPrefix(rel, \"..\"+separator): %v, rel compared with \"..\": %v)", key, hasPrefix != nil, neqDots != nil)})
-		return
-	}
-	bad := ""
-	nret := 0
-	o := &PathOracle{}
-	o.AtReturn = func(st *PState, ret *ssa.Return) {
-		nret++
-		s2 := st.clone()
-		if !s2.refineCond(ret.Results[0], true, o) {
-			return // cannot return true on this path
-		}
-		if s2.Get(errV, o) != AvNil {
-			bad = "can return true although filepath.Rel failed (err not known nil)"
-		}
-		if s2.Get(hasPrefix, o) != AvNil {
-			bad = "can return true although rel starts with \"..\"+separator"
-		}
-		want := AvNonNil
-		if neqDots.Op == token.EQL {
-			want = AvNil
-		}
-		if s2.Get(neqDots, o) != want {
-			bad = "can return true although rel is \"..\""
-		}
-	}
-	if !ExplorePaths(pred, o) {
-		r.Undecide("R17c: path exploration of %s exceeded its bound", key)
-	}
-	if bad != "" {
-		r.Instance("R17c", key+"#result", c.Pos(pred.Pos()), "finding", bad, true)
-		r.Report(Finding{Rule: "R17c", Site: key + "#result", Pos: c.Pos(pred.Pos()), Msg: key + " " + bad})
-	} else {
-		r.Instance("R17c", key+"#result", c.Pos(pred.Pos()), "ok", fmt.Sprintf("on all %d return paths: result may be true ⇒ err=nil ∧ ¬HasPrefix(rel,\"..\"+sep) ∧ rel≠\"..\"", nret), true)
-	}
 }
 
 // prefixIsDotDotSep: the value is ".." followed by the path separator.
